@@ -841,6 +841,7 @@ pub fn run_typed<I: HInp, P: InputPredictor<I> + 'static>(sc: &Scenario, opts: &
                 Op::LinkDown { from, to, .. } => net.borrow_mut().kill_link(*from, *to),
                 Op::Outage { from, to, len_ms, .. } => net.borrow_mut().outage(*from, *to, *len_ms as u64),
                 Op::DropNext { from, to, class, .. } => net.borrow_mut().drop_next(*from, *to, *class as usize),
+                Op::DropClass { from, to, class, len_ms, .. } => net.borrow_mut().drop_class(*from, *to, *class as usize, *len_ms as u64),
                 Op::Slow { from, to, len_ms, extra_ms, .. } => net.borrow_mut().slow(*from, *to, *len_ms as u64, *extra_ms as u64),
                 Op::Restart { peer, .. } => {
                     let p = *peer as usize;
